@@ -8,6 +8,7 @@ import (
 	"net/http/httptest"
 	"os"
 	"runtime/pprof"
+	"sort"
 	"strings"
 	"sync"
 	"sync/atomic"
@@ -422,6 +423,7 @@ func TestC18(t *testing.T) {
 	r.Set("blob_single_wall_s", time.Since(t0).Seconds())
 	t0 = time.Now()
 	vfbLoop(r, backend, gate, srv.URL)
+	vfbTwoBuckets(r, backend, srv.URL)
 	r.Set("blob_loop_wall_s", time.Since(t0).Seconds())
 	pprof.StopCPUProfile()
 
@@ -694,6 +696,72 @@ func vfbRunDirect(r *core.Run, w *vfbWorld, ep *ruleSetEndpoint, fails *vfbFailu
 	o.final(step+1, truth, rec.snapshot(), &vfStep{Classify: classify, Generic: vfGenericBlob, Ctx: ctxInfo})
 	bad := o.report(r, "cloud_blob", mode, vfbSeqNames(seq), "")
 	return o.nOK, bad
+}
+
+// vfbTwoBuckets: two configured buckets that have the same name and live on two services - their URLs differ in
+// nothing but the query. Each is a source of its own: polling one must never touch what the other one delivered.
+func vfbTwoBuckets(r *core.Run, backendA *s3mem.Backend, srvA string) {
+	backendB := s3mem.New()
+	srvB := httptest.NewUnstartedServer(gofakes3.New(backendB).Server())
+	srvB.Config.SetKeepAlivesEnabled(false)
+	srvB.Start()
+	defer srvB.Close()
+	const bucket = "vf_same_name"
+	_ = backendA.CreateBucket(bucket)
+	_ = backendB.CreateBucket(bucket)
+	wA := &vfbWorld{backend: backendA, bucket: bucket, blobs: map[string]*vfbBlob{}}
+	wB := &vfbWorld{backend: backendB, bucket: bucket, blobs: map[string]*vfbBlob{}}
+	epA, errA := vfbEndpoint(srvA, bucket, "")
+	epB, errB := vfbEndpoint(srvB.URL, bucket, "")
+	if errA != nil || errB != nil {
+		r.Inconclusive(fmt.Sprintf("blob: two buckets: endpoint config: %v %v", errA, errB))
+		return
+	}
+	rec := vfNewRecorder()
+	p := &provider{p: rec, l: zerolog.Nop(), configured: true}
+	ctx := zerolog.Nop().WithContext(context.Background())
+	type stepT struct {
+		What     string   `json:"step"`
+		Expected []string `json:"expected_calls"`
+		Observed []string `json:"observed_calls"`
+	}
+	var hist []stepT
+	bad := false
+	poll := func(what string, ep *ruleSetEndpoint, expect ...string) {
+		_ = p.watchChanges(ctx, &vfbFetcher{real: ep})
+		var obs []string
+		for _, c := range rec.take() {
+			obs = append(obs, c.Op+"("+c.Content+")")
+		}
+		sort.Strings(obs)
+		sort.Strings(expect)
+		hist = append(hist, stepT{what, expect, obs})
+		if strings.Join(obs, ",") != strings.Join(expect, ",") {
+			bad = true
+		}
+		r.Eval(1)
+	}
+	_ = wA.apply(vfbNewX)
+	_ = wB.apply(vfbNewX)
+	ca, cb := wA.blobs["x"].content, wB.blobs["x"].content
+	poll("bucket A holds a rule set; poll A", epA, "C("+ca+")")
+	poll("bucket B (same name, other service) holds another rule set; poll B", epB, "C("+cb+")")
+	poll("nothing changed; poll A", epA)
+	poll("nothing changed; poll B", epB)
+	_ = wA.apply(vfbNewX)
+	ca2 := wA.blobs["x"].content
+	poll("the rule set of bucket A changed; poll A", epA, "U("+ca2+")")
+	poll("nothing changed in bucket B; poll B", epB)
+	active := rec.snapshot()
+	r.Case("blob|two-buckets-differing-in-the-query-only", true)
+	r.Count("blob_two_bucket_polls", len(hist))
+	if len(active) != 2 {
+		bad = true
+	}
+	if bad {
+		r.Violation("blob-buckets-differing-in-query-share-state", fmt.Sprintf("two buckets of the same name on two services: %d rule sets active at the end, expected 2; calls differ from the expectation", len(active)),
+			map[string]any{"provider": "cloud_blob", "bucket_urls": []string{epA.URL.String(), epB.URL.String()}, "steps": hist, "active_at_the_end": active})
+	}
 }
 
 // ---------------------------------------------------------------------------------------------
